@@ -38,7 +38,9 @@ EXTENDS MatQ, FiniteSets, TLC, Json
 CONSTANTS MaxDim,            \* CGLS: all full-rank A in {-1,0,1}^(m x n), m, n <= MaxDim (<= 2), exhaustively
           Dim3Mod,           \* 0: no size-3 problems; k > 0: every k-th full-rank matrix with a dimension equal to 3
           Seed,              \* selects the residue class of the size-3 sample
-          KktLevel,          \* 1: short list of unimodular matrices; 2: all 2x2 over {-1,0,1,2} with det +-1, and 3x3
+          Level,             \* 1 (quick): three right-hand sides per shape, short list of unimodular matrices for "kkt";
+                             \* 2 (thorough): every b in the box, all 2x2 unimodular matrices over {-1,0,1,2}, and 3x3
+          MagBound,          \* cg: a state whose numerators / denominators exceed this is not iterated further (32-bit TLC)
           Kinds,             \* subset of {"cg", "prox", "kkt", "lm", "wrap"}
           Emit,
           PcglsIgnoresShift,
@@ -82,9 +84,11 @@ Precs(n) == IF n = 2 THEN { <<<<1, 0>>, <<1, 1>>>>, <<<<1, -2>>, <<0, 1>>>> }
 BoxS == {-1, 0, 1}
 BoxB == {-1, 0, 2}
 
+BSet(m) == IF Level >= 2 THEN [1..m -> BoxB]
+           ELSE { [i \in 1..m |-> IF i = 1 THEN -1 ELSE 2], [i \in 1..m |-> IF i = 1 THEN 2 ELSE 0], [i \in 1..m |-> 0] }
 CgSmall ==
     UNION { UNION { CgProblems("cgls", m, n, {A \in IMats(m, n, Ent) : FullRank(A, m, n)},
-                               [1..m -> BoxB], [1..n -> BoxS], {0, 1}, {<<>>})
+                               BSet(m), [1..n -> BoxS], {0, 1}, {<<>>})
                     : n \in 1..MaxDim } : m \in 1..MaxDim }
 PcgSmall ==
     UNION { CgProblems("pcgls", m, 2, {A \in IMats(m, 2, Ent) : FullRank(A, m, 2)},
@@ -119,17 +123,25 @@ ApplyPinvT(p, Pinv, v)  == IF IsPc(p) THEN QMV(MT(Pinv), v) ELSE v
 NormalRes(p, A, Pinv, sh, x) ==
     ApplyPinvT(p, Pinv, QVSub(QMV(MT(A), QVSub(VR(p.b), QMV(A, x))), QVScale(sh, x)))
 
+\* 32-bit guard: the recurrences are followed as long as all numbers of the state are small; a problem whose
+\* iterates grow beyond the bound is "abandoned": its prefix and its exact solution are still emitted.
+SmallVec(v) == \A i \in 1..Len(v) : Abs(v[i][1]) <= MagBound /\ v[i][2] <= MagBound
+Status(x, r, s, p, gamma) ==
+    IF gamma = Zero THEN "converged"
+    ELSE IF SmallVec(x) /\ SmallVec(r) /\ SmallVec(s) /\ SmallVec(p) /\ SmallVec(<<gamma>>) THEN "iter" ELSE "abandoned"
+
 CgInit(p) ==
     LET A == MR(p.A)  x == VR(p.x0)
         Pinv == IF IsPc(p) THEN PinvOf(p) ELSE <<>>
         r == F(QVSub(VR(p.b), QMV(A, x)))
         s == F(ApplyPinvT(p, Pinv, QVSub(QMV(MT(A), r), QVScale(EffShift(p), x))))
-    IN  /\ it' = [x |-> x, r |-> r, s |-> s, p |-> s, gamma |-> QNorm2(s), k |-> 0]
+        gam == F(QNorm2(s))
+    IN  /\ it' = [x |-> x, r |-> r, s |-> s, p |-> s, gamma |-> gam, k |-> 0, status |-> Status(x, r, s, s, gam)]
         /\ hist' = << [fwd |-> x, adj |-> r, x |-> x, s |-> s] >>
 
 Iterate ==
     /\ Run("cg")
-    /\ it.gamma # Zero
+    /\ it.status = "iter"
     /\ LET A == MR(pb.A)  sh == EffShift(pb)
            Pinv  == IF IsPc(pb) THEN PinvOf(pb) ELSE <<>>
            t     == F(ApplyPinv(pb, Pinv, it.p))
@@ -140,8 +152,9 @@ Iterate ==
            r1    == F(QAxpy(it.r, QNeg(alpha), q))
            s1    == F(ApplyPinvT(pb, Pinv, QVSub(QMV(MT(A), r1), QVScale(sh, x1))))
            gam1  == F(QNorm2(s1))
-           p1    == QAxpy(s1, QDiv(gam1, it.gamma), it.p)
-       IN /\ it' = [x |-> x1, r |-> r1, s |-> s1, p |-> p1, gamma |-> gam1, k |-> it.k + 1]
+           p1    == F(QAxpy(s1, QDiv(gam1, it.gamma), it.p))
+       IN /\ it' = [x |-> x1, r |-> r1, s |-> s1, p |-> p1, gamma |-> gam1, k |-> it.k + 1,
+                    status |-> Status(x1, r1, s1, p1, gam1)]
           /\ hist' = Append(hist, [fwd |-> t, adj |-> r1, x |-> x1, s |-> s1])
     /\ UNCHANGED <<pb, ph>>
 
@@ -164,7 +177,7 @@ Orthogonality ==
 
 \* at termination the (true) shifted normal equations hold
 NormalEquations ==
-    (Run("cg") /\ it.gamma = Zero) =>
+    (Run("cg") /\ it.status = "converged") =>
         LET A == MR(pb.A)  AT == MT(A)
         IN QMV(QMAdd(QMM(AT, A), QMScale(R(pb.shift), MId(pb.n))), it.x) = QMV(AT, VR(pb.b))
 
@@ -176,11 +189,26 @@ KrylovRange ==
             Aug == F([i \in 1..pb.n |-> AT[i] \o <<d[i]>>])
         IN QRank(Aug) = QRank(AT)
 
+\* the point the solver has to return, defined without the recurrences:
+\*   (A^T A + shift I) non-singular: the solution of the normal equations;
+\*   otherwise (under-determined, no shift): x0 + M A^T w with A M A^T w = b - A x0, M = P^-1 P^-T
+\*   (the correction of minimal P-norm: conjugate gradients never leave x0 + range(M A^T)).
+CgSolution(p) ==
+    LET A == MR(p.A)  AT == MT(A)  b == VR(p.b)  x0 == VR(p.x0)
+    IN IF p.m >= p.n \/ p.shift # 0
+       THEN QSolve(QMAdd(QMM(AT, A), QMScale(R(p.shift), MId(p.n))), QMV(AT, b))
+       ELSE LET MAT == IF IsPc(p) THEN QMM(QMM(PinvOf(p), MT(PinvOf(p))), AT) ELSE AT
+                w   == QSolve(QMM(A, MAT), QVSub(b, QMV(A, x0)))
+            IN QVAdd(x0, QMV(MAT, w))
+
+SolutionReached ==
+    (Run("cg") /\ it.status = "converged" /\ ~PcglsIgnoresShift) => it.x = CgSolution(pb)
+
 EmitCg ==
-    (Emit /\ Run("cg") /\ it.gamma = Zero) =>
+    (Emit /\ Run("cg") /\ it.status # "iter") =>
         PrintT("@@CASE " \o ToJson([kind |-> "cg", solver |-> pb.solver, m |-> pb.m, n |-> pb.n, A |-> pb.A, b |-> pb.b,
-                                    x0 |-> pb.x0, shift |-> pb.shift, P |-> pb.P, k |-> it.k, x |-> it.x,
-                                    steps |-> hist]) \o " @@END")
+                                    x0 |-> pb.x0, shift |-> pb.shift, P |-> pb.P, k |-> it.k, status |-> it.status,
+                                    xsol |-> CgSolution(pb), steps |-> hist]) \o " @@END")
 
 (***************************************************************************)
 (* kind "prox": projections and soft-thresholding                          *)
@@ -287,7 +315,7 @@ KktProblems(As, n) ==
     UNION { { [kind |-> "kkt", n |-> n, A |-> A, reg |-> rg, xs |-> [i \in 1..n |-> pr[i][1]], g |-> [i \in 1..n |-> pr[i][2]]] :
                 A \in As, pr \in [1..n -> PairsN(rg, n)] } : rg \in Regs }
 
-KktAll == IF KktLevel = 1 THEN KktProblems(Unimod2Short, 2)
+KktAll == IF Level = 1 THEN KktProblems(Unimod2Short, 2)
           ELSE KktProblems(Unimod2All, 2) \cup KktProblems(Unimod3, 3)
 
 \* b = A xs + A^-T g
@@ -314,7 +342,7 @@ KktFixedPoint ==
         LET A == MR(pb.A)  AT == MT(A)  b == KktB(pb)
             grad == QMV(AT, QVSub(QMV(A, pb.xs), b))
             st == KktSteps(pb)
-        IN /\ \A i \in 1..pb.n : RIsInt(b[i])                                   \* unimodular: integer data
+        IN /\ \A i \in 1..pb.n : b[i][2] \in {1, 2, 4}                           \* dyadic data: exact in floating point
            /\ grad = F([i \in 1..pb.n |-> QNeg(pb.g[i])])                        \* stationarity: -grad = g
            /\ \A i \in 1..pb.n : InSubdiff(pb.reg, pb.xs[i], pb.g[i])            \* g in dh(xs)
            /\ \A t \in {st[1], st[2], One, R(3)} :                                \* fixed point for EVERY step
